@@ -2,6 +2,7 @@
 (* Validly signed but ill-formed structures (C08, C07): one payload template with four digest slots
      root _sd = [g1, g2]          d1 = [salt, "n1", {"in": "i", "_sd": [g4]}]     d2 = [salt, "n2", "v2"]
      arr = [{"...": g3}, "e1"]    d3 = [salt, "v3"]                               d4 = [salt, "n4", "v4"]  (inside d1's value)
+     grid = [[{"...": g5}, "x"], "y"]   d5 = [salt, "v5"]   (a placeholder in an array that sits directly in an array)
    and every set of at most MaxDev deviations: a slot's disclosure replaced by one of the ill-formed shapes, structural
    flags (duplicated digests within / across / nested, non-string entries, placeholders with extra members, _sd that is
    not an array), _sd_alg variants, disclosures withheld.  Inv_C08 states, per deviation set, what draft-07 8.1 requires. *)
@@ -12,19 +13,19 @@ S(i) == JStr("salt" \o ToString(i))
 Shapes == {"good", "len0", "len1", "len2", "len3", "len4", "len5", "str", "obj", "num", "name-num", "name-null", "name-_sd", "name-dots", "name-vis", "name-dup"}
 Flags == {"dup-within", "dup-across", "dup-nested", "nonstring-entry", "ph-extra", "ph-nonstring", "sd-notarray", "sd-empty"}
 Algs == {"absent", "sha-512", "number", "null"}
-Devs == {[k |-> "shape", slot |-> s, shape |-> sh] : s \in 1..4, sh \in Shapes \ {"good"}}
-        \cup {[k |-> "flag", f |-> f] : f \in Flags} \cup {[k |-> "alg", v |-> a] : a \in Algs} \cup {[k |-> "drop", slot |-> s] : s \in 1..4}
+Devs == {[k |-> "shape", slot |-> s, shape |-> sh] : s \in 1..5, sh \in Shapes \ {"good"}}
+        \cup {[k |-> "flag", f |-> f] : f \in Flags} \cup {[k |-> "alg", v |-> a] : a \in Algs} \cup {[k |-> "drop", slot |-> s] : s \in 1..5} \cup {[k |-> "dropall"]}
 \* a slot appears at most once in a deviation set
-Consistent(D) == \A s \in 1..4 : Cardinality({d \in D : d.k \in {"shape", "drop"} /\ d.slot = s}) <= 1 /\ Cardinality({d \in D : d.k = "alg"}) <= 1
+Consistent(D) == \A s \in 1..5 : Cardinality({d \in D : d.k \in {"shape", "drop"} /\ d.slot = s}) <= 1 /\ Cardinality({d \in D : d.k = "alg"}) <= 1
 DevSets == {D \in {{}} \cup {{d} : d \in Devs} \cup (IF MaxDev >= 2 THEN {{d, e} : d \in Devs, e \in Devs} ELSE {}) : Consistent(D)}
 
 ShapeOf(D, s) == IF \E d \in D : d.k = "shape" /\ d.slot = s THEN (CHOOSE d \in D : d.k = "shape" /\ d.slot = s).shape ELSE "good"
-Dropped(D, s) == \E d \in D : d.k = "drop" /\ d.slot = s
+Dropped(D, s) == [k |-> "dropall"] \in D \/ \E d \in D : d.k = "drop" /\ d.slot = s
 Flag(D, f) == [k |-> "flag", f |-> f] \in D
 Name(s) == "n" \o ToString(s)
 \* element (slot 3) disclosures are 2-element when good; member disclosures 3-element
 Dec(s, shape, val) ==
-  LET nm == JStr(Name(s)) elem == s = 3 IN
+  LET nm == JStr(Name(s)) elem == s \in {3, 5} IN
   CASE shape = "good" -> IF elem THEN JArr(<<S(s), val>>) ELSE JArr(<<S(s), nm, val>>)
     [] shape = "len0" -> JArr(<<>>)
     [] shape = "len1" -> JArr(<<S(s)>>)
@@ -45,6 +46,7 @@ Build(D) ==
   LET d4 == MkDisc(Dec(4, ShapeOf(D, 4), JStr("v4")), "raw")
       d2 == MkDisc(Dec(2, ShapeOf(D, 2), JStr("v2")), "raw")
       d3 == MkDisc(Dec(3, ShapeOf(D, 3), JStr("v3")), "raw")
+      d5 == MkDisc(Dec(5, ShapeOf(D, 5), JStr("v5")), "raw")
       innerSd == IF Flag(D, "dup-nested") THEN <<JStr(d4.dg), JStr(d2.dg)>> ELSE <<JStr(d4.dg)>>
       inner == JObj([k \in {"in", "_sd"} |-> IF k = "in" THEN JStr("i") ELSE JArr(innerSd)])
       d1 == MkDisc(Dec(1, ShapeOf(D, 1), inner), "raw")
@@ -56,14 +58,15 @@ Build(D) ==
             ELSE IF Flag(D, "ph-extra") THEN JObj([k \in {"...", "x"} |-> IF k = "x" THEN JNum("1") ELSE g3])
             ELSE JObj([k \in {"..."} |-> IF Flag(D, "dup-across") THEN g2 ELSE g3])
       alg == IF \E d \in D : d.k = "alg" THEN (CHOOSE d \in D : d.k = "alg").v ELSE "sha-256"
-      keys == {"iss", "exp", "vis", "_sd", "arr"} \cup (IF alg = "absent" THEN {} ELSE {"_sd_alg"})
+      keys == {"iss", "exp", "vis", "_sd", "arr", "grid"} \cup (IF alg = "absent" THEN {} ELSE {"_sd_alg"})
       pl == JObj([k \in keys |->
                CASE k = "iss" -> JStr("i1") [] k = "exp" -> JNum("EXP") [] k = "vis" -> JStr("x") [] k = "_sd" -> sd
                  [] k = "arr" -> JArr(<<phl, JStr("e1")>>)
+                 [] k = "grid" -> JArr(<<JArr(<<JObj([x \in {"..."} |-> JStr(d5.dg)]), JStr("x")>>), JStr("y")>>)
                  [] k = "_sd_alg" -> (CASE alg = "sha-256" -> JStr("sha-256") [] alg = "sha-512" -> JStr("sha-512") [] alg = "number" -> JNum("256") [] alg = "null" -> JNull)])
-      all == <<d1, d2, d3, d4>>
-      pres == SelectSeq(<<1, 2, 3, 4>>, LAMBDA i : ~Dropped(D, i))
-  IN [raw |-> TRUE, devs |-> D, pl |-> pl, discs |-> [i \in DOMAIN pres |-> Wire(all[pres[i]])], pool |-> [i \in 1..4 |-> [dg |-> all[i].dg, dec |-> all[i].dec]], key |-> "K1", alg |-> "ES256", exp |-> FarExp, nbf |-> NoNbf]
+      all == <<d1, d2, d3, d4, d5>>
+      pres == SelectSeq(<<1, 2, 3, 4, 5>>, LAMBDA i : ~Dropped(D, i))
+  IN [raw |-> TRUE, devs |-> D, pl |-> pl, discs |-> [i \in DOMAIN pres |-> Wire(all[pres[i]])], pool |-> [i \in 1..5 |-> [dg |-> all[i].dg, dec |-> all[i].dec]], key |-> "K1", alg |-> "ES256", exp |-> FarExp, nbf |-> NoNbf]
 Plans == {<<Build(D)>> : D \in DevSets}
 Pres(cr) == {}
 VArgs == {[res |-> [kind |-> "const", key |-> "K1"], aud |-> NONE, nonce |-> NONE]}
@@ -87,6 +90,7 @@ MustReject(D) ==
   \/ Reach1(D) /\ Reach2(D) /\ NameIn(D, 1) # "" /\ NameIn(D, 1) = NameIn(D, 2)                    \* two disclosed members with one name
   \/ Reach3(D) /\ ShapeOf(D, 3) \in BadShapeElem
   \/ Reach4(D) /\ ShapeOf(D, 4) \in BadShapeMember
+  \/ ~Dropped(D, 5) /\ ShapeOf(D, 5) \in BadShapeElem
   \/ SdSearched(D) /\ Flag(D, "dup-within")
   \/ PhIsPlaceholder(D) /\ Flag(D, "dup-across") /\ (SdSearched(D) \/ (~Dropped(D, 2) /\ ShapeOf(D, 2) # "len2"))   \* g2 twice, or a member disclosure behind "..."
   \/ Good1(D) /\ SdSearched(D) /\ Flag(D, "dup-nested")
